@@ -312,14 +312,12 @@ def gen_extra(rng):
         mode = rng.randrange(3)
         if kind == "scatter":
             idx = rng.sample(range(L), n)                       # distinct: the stored positions do not depend on the order
-            e = gen_expr(rng, [n], rng.choice([0, 1, 1]), "P", rng.choice([0.0, 0.0, 0.5]), ("leaf", "scalar", "neg", "bin"))
+            # the right-hand side may read the indexed target's own parent (IndexedArray::operator= tests for the overlap and
+            # evaluates into a temporary): plain and compound assignment
+            e = gen_expr(rng, [n], rng.choice([0, 1, 1]), "P", rng.choice([0.0, 0.5, 0.9]), ("leaf", "scalar", "neg", "bin"))
             if not leaves(e):
                 return None
-            # aliasing between the right-hand side and the indexed target is outside the documented alias detection: keep them apart
-            tset = set(big.cells)
-            if any(v.name == big.name and any(c in tset for c in v.cells) for v in leaves(e)):
-                return None
-            return Stmt("scatter", target=big, idx=idx, mode=mode, e=e)
+            return Stmt("scatter", target=big, idx=idx, mode=mode, e=e, op=rng.choice(["", "", "+", "-", "*"]))
         idx = [rng.randrange(L) for _ in range(n)]
         t = random_view(rng, [n], "Q")
         if t is None or len(set(t.cells)) != len(t.cells):
@@ -346,7 +344,7 @@ def gen_extra(rng):
     return Stmt("reddim", red=red, e=e, dims=dims, dim=rng.randrange(rank))
 
 
-def gen_stmt(rng, kinds=("assign", "compound", "where", "fill", "reduce", "noalias", "extra")):
+def gen_stmt(rng, kinds=("assign", "compound", "where", "fill", "reduce", "noalias", "extra", "extra")):
     kind = rng.choice(kinds)
     if kind == "extra":
         return gen_extra(rng)
@@ -426,7 +424,7 @@ def stmt_cxx(s, ty="double"):
             return "RESULT(count(%s > %s(0)));" % (cxx(s.e, ty), ty)
         return "RESULT(%s(%s));" % (s.red, cxx(s.e, ty))
     if s.kind == "scatter":
-        return "{ %s %s(I) = %s; }" % (index_vector_cxx(s.idx, s.mode), s.target.text, cxx(s.e, ty))
+        return "{ %s %s(I) %s= %s; }" % (index_vector_cxx(s.idx, s.mode), s.target.text, s.op, cxx(s.e, ty))
     if s.kind == "gather":
         return "{ %s %s = %s(I) %s %s; }" % (index_vector_cxx(s.idx, s.mode), s.target.text, s.src.text, s.op, cxx(s.e, ty))
     if s.kind == "find":
@@ -481,6 +479,9 @@ def stmt_spec(s):
     elif s.kind == "scatter":
         t = s.target
         vals = [spec_eval(s.e, mem, (k,)) for k in range(len(s.idx))]
+        if s.op:
+            f = {"+": lambda a, b: a + b, "-": lambda a, b: a - b, "*": lambda a, b: a * b}[s.op]
+            vals = [f(mem[t.name][t.cells[i]], vals[k]) for k, i in enumerate(s.idx)]
         for k, i in enumerate(s.idx):
             mem[t.name][t.cells[i]] = vals[k]
     elif s.kind == "gather":
